@@ -1,7 +1,7 @@
 (* C20: replays an event trace of the real executor on the extracted transition system.
    line:  stw <limit> <blocking> <cb> <hook> <variant> | tid:kind:a:b:c ...
           tp  <nthreads> <limit> <ovf> <hook> <variant> | ...
-   variant: 0 = code as found, 1 = with the shutdown re-check fix, 2 = try 0 then 1.
+   variant: 0 = code as found, 1 = with the shutdown re-check fixes, 3 = 1 + overflow threads registered (tp), 2 = try 3, 1, 0.
    answer: ok variant=v n=.. acc=.. enq=.. done=.. disc=.. repl=.. started=.. pending=.. uaf=b freed=b wdead=b shut=b
            reject at=<index> ev=<token> variant=v *)
 let n = nat_of_int
@@ -57,11 +57,11 @@ let handle toks =
     let hook = hook <> "0" and variant = int_of_string variant in
     let one v =
       if kind = "stw" then begin
-        let c = stw_cfg (n p1) (p2 <> 0) (p3 <> 0) (v = 1) in
+        let c = stw_cfg (n p1) (p2 <> 0) (p3 <> 0) (v >= 1) in
         let (s, bad, k) = replay (stw_step c) (stw_hidden c) (fun _ e -> e) hook stw_init evs in
         (bad, k, view (stw_view s))
       end else begin
-        let c = tp_cfg (n p1) (n p2) (n p3) (v = 1) in
+        let c = tp_cfg (n p1) (n p2) (n p3) (v >= 1) (v = 3) in
         let fixsig s e = match e with
           | ESignal (cv, _) -> (match tp_waitc s with w :: _ -> ESignal (cv, Some w) | [] -> ESignal (cv, None))
           | _ -> e in
@@ -72,10 +72,16 @@ let handle toks =
       if bad < 0 then Printf.sprintf "ok variant=%d n=%d %s" v k vw
       else Printf.sprintf "reject at=%d ev=%s variant=%d %s" bad toka.(bad) v vw in
     if variant = 2 then begin
-      let (b0, _, _) as r0 = one 0 in
-      if b0 < 0 then show 0 r0 else
-      let (b1, _, _) as r1 = one 1 in
-      if b1 < 0 then show 1 r1 else if b1 > b0 then show 1 r1 else show 0 r0
+      let cands = if kind = "stw" then [1; 0] else [3; 1; 0] in
+      let best = ref None in
+      (try List.iter (fun v ->
+         let (b, _, _) as r = one v in
+         if b < 0 then (best := Some (v, r); raise Exit)
+         else (match !best with
+               | Some (_, (b0, _, _)) when b0 >= b -> ()
+               | _ -> best := Some (v, r))) cands
+       with Exit -> ());
+      (match !best with Some (v, r) -> show v r | None -> "bad-line")
     end else show variant (one variant)
   | _ -> "bad-line"
 
